@@ -1,10 +1,40 @@
 //@@ unit props=C05,C06,C08,C17
+#![feature(allocator_api)]
 #![allow(unused_imports, dead_code, unused_variables, unused_mut, unused_assignments)]
 use vstd::prelude::*;
+use std::alloc::Allocator;
+use std::slice::Chunks;
 use std::cmp::{max, min};
 use std::ops::{Index, IndexMut};
 
 verus! {
+
+// TRUSTED: 64-bit target (usize is 8 bytes); on it a product of two u32-sized spans never saturates usize
+global size_of usize == 8;
+
+// TRUSTED: Vec::shrink_to_fit only changes capacity (std doc: "Shrinks the capacity of the vector as much as possible")
+pub assume_specification<T, A: Allocator>[ Vec::<T, A>::shrink_to_fit ](v: &mut Vec<T, A>)
+    ensures final(v)@ == old(v)@;
+
+// TRUSTED (A-chunks): std::slice::Chunks as an abstract cursor over the not-yet-yielded suffix of the slice.
+// std doc of `chunks`: "Returns an iterator over chunk_size elements of the slice at a time, starting at the beginning of the
+// slice. The chunks are slices and do not overlap. If chunk_size does not divide the length of the slice, then the last chunk
+// will not have length chunk_size. Panics if chunk_size is zero."
+#[verifier::external_type_specification] #[verifier::external_body] #[verifier::reject_recursive_types(T)]
+pub struct ExChunks<'a, T: 'a>(Chunks<'a, T>);
+pub uninterp spec fn chunks_rem<'a, T>(c: Chunks<'a, T>) -> Seq<T>;
+pub uninterp spec fn chunks_size<'a, T>(c: Chunks<'a, T>) -> nat;
+pub open spec fn imin(a: int, b: int) -> int { if a < b { a } else { b } }
+pub assume_specification<T>[ <[T]>::chunks ](s: &[T], n: usize) -> (r: Chunks<'_, T>)
+    requires n != 0,
+    ensures chunks_rem(r) == s@, chunks_size(r) == n;
+pub assume_specification<'a, T>[ <Chunks<'a, T> as Iterator>::next ](c: &mut Chunks<'a, T>) -> (r: Option<&'a [T]>)
+    ensures
+        chunks_size(*final(c)) == chunks_size(*old(c)),
+        chunks_rem(*old(c)).len() == 0 ==> r is None && chunks_rem(*final(c)) == chunks_rem(*old(c)),
+        chunks_rem(*old(c)).len() > 0 ==> r is Some
+            && r.unwrap()@ == chunks_rem(*old(c)).take(imin(chunks_size(*old(c)) as int, chunks_rem(*old(c)).len() as int))
+            && chunks_rem(*final(c)) == chunks_rem(*old(c)).skip(imin(chunks_size(*old(c)) as int, chunks_rem(*old(c)).len() as int));
 
 //@@ item src/lib.rs trait "trait CellType"
 //@@ item src/lib.rs struct Cell
@@ -20,9 +50,12 @@ impl<T: CellType> Range<T> {
     pub closed spec fn h(&self) -> int { self.end.0 - self.start.0 + 1 }
     pub closed spec fn w(&self) -> int { self.end.1 - self.start.1 + 1 }
     /// representation invariant
+    /// corners ordered component-wise and both spans representable in u32 (so that width()/height() do not overflow)
+    pub closed spec fn spans_ok(&self) -> bool {
+        self.start.0 <= self.end.0 && self.start.1 <= self.end.1 && self.h() <= u32::MAX && self.w() <= u32::MAX
+    }
     pub closed spec fn wf(&self) -> bool {
-        self.inner@.len() == 0 || (self.start.0 <= self.end.0 && self.start.1 <= self.end.1
-            && self.h() <= u32::MAX && self.w() <= u32::MAX && self.inner@.len() == self.h() * self.w())
+        self.inner@.len() == 0 || (self.spans_ok() && self.inner@.len() == self.h() * self.w())
     }
     pub closed spec fn nonempty(&self) -> bool { self.inner@.len() > 0 }
     pub closed spec fn lo(&self) -> (u32, u32) { self.start }
@@ -37,6 +70,53 @@ impl<T: CellType> Range<T> {
     /// abstract view: value at absolute position (r, c) (meaningful where has(r, c))
     pub closed spec fn at(&self, r: int, c: int) -> T {
         self.inner@[(r - self.start.0) * self.w() + (c - self.start.1)]
+    }
+}
+
+impl<T: CellType> Cell<T> {
+    pub closed spec fn p(&self) -> (u32, u32) { self.pos }
+    pub closed spec fn v(&self) -> T { self.val }
+}
+
+/// documented precondition of from_sparse: "sorted by row" as far as the code relies on it -- first/last row are min/max
+pub closed spec fn rows_sorted<T: CellType>(cs: Seq<Cell<T>>) -> bool {
+    forall|i: int| 0 <= i < cs.len() ==> cs[0].pos.0 <= (#[trigger] cs[i]).pos.0 <= cs[cs.len() - 1].pos.0
+}
+pub closed spec fn cell_at<T: CellType>(c: Cell<T>, r: int, co: int) -> bool { c.pos.0 == r && c.pos.1 == co }
+/// index of the last of the first k cells that sits at (r, co); -1 if none
+pub closed spec fn lastw<T: CellType>(cs: Seq<Cell<T>>, k: int, r: int, co: int) -> int
+    decreases k
+{
+    if k <= 0 { -1 } else if cell_at(cs[k - 1], r, co) { k - 1 } else { lastw(cs, k - 1, r, co) }
+}
+/// (lo, hi) is the tight bounding box of the cell positions
+pub closed spec fn is_bbox<T: CellType>(cs: Seq<Cell<T>>, lo: (u32, u32), hi: (u32, u32)) -> bool {
+    &&& forall|i: int| 0 <= i < cs.len() ==> lo.0 <= (#[trigger] cs[i]).pos.0 <= hi.0 && lo.1 <= cs[i].pos.1 <= hi.1
+    &&& exists|i: int| 0 <= i < cs.len() && (#[trigger] cs[i]).pos.0 == lo.0
+    &&& exists|i: int| 0 <= i < cs.len() && (#[trigger] cs[i]).pos.0 == hi.0
+    &&& exists|i: int| 0 <= i < cs.len() && (#[trigger] cs[i]).pos.1 == lo.1
+    &&& exists|i: int| 0 <= i < cs.len() && (#[trigger] cs[i]).pos.1 == hi.1
+}
+
+proof fn lemma_lastw<T: CellType>(cs: Seq<Cell<T>>, k: int, r: int, co: int)
+    requires 0 <= k <= cs.len(),
+    ensures
+        -1 <= lastw(cs, k, r, co) < k,
+        lastw(cs, k, r, co) >= 0 ==> cell_at(cs[lastw(cs, k, r, co)], r, co),
+        forall|j: int| lastw(cs, k, r, co) < j < k ==> !cell_at(#[trigger] cs[j], r, co),
+    decreases k,
+{
+    if k > 0 { lemma_lastw(cs, k - 1, r, co); }
+}
+
+proof fn lemma_idx_inj(i: int, j: int, i2: int, j2: int, w: int)
+    requires 0 <= j < w, 0 <= j2 < w, i * w + j == i2 * w + j2,
+    ensures i == i2 && j == j2,
+{
+    if i < i2 {
+        assert(i * w + w <= i2 * w) by (nonlinear_arith) requires i + 1 <= i2, w > 0;
+    } else if i > i2 {
+        assert(i2 * w + w <= i * w) by (nonlinear_arith) requires i2 + 1 <= i, w > 0;
     }
 }
 
@@ -95,21 +175,21 @@ proof fn lemma_idx(i: int, j: int, h: int, w: int)
 //@@ end
 //@@ fn src/lib.rs Range::width props=C05 ret=r
 //@@ sig
-    requires self.wf(),
+    requires self.nonempty() ==> self.spans_ok(),
     ensures
         //# C05.width
         r == self.sw(),
 //@@ end
 //@@ fn src/lib.rs Range::height props=C05 ret=r
 //@@ sig
-    requires self.wf(),
+    requires self.nonempty() ==> self.spans_ok(),
     ensures
         //# C05.height
         r == self.sh(),
 //@@ end
 //@@ fn src/lib.rs Range::get_size props=C05 ret=r
 //@@ sig
-    requires self.wf(),
+    requires self.nonempty() ==> self.spans_ok(),
     ensures
         //# C05.get_size
         r.0 == self.sh() && r.1 == self.sw(),
@@ -132,6 +212,31 @@ proof fn lemma_idx(i: int, j: int, h: int, w: int)
                 assert(self.inner@.len() == self.inner.len());
             }
 //@@ end
+//@@ fn src/lib.rs Range::set_value props=C05
+//@@ sig
+    requires
+        old(self).wf(),
+        // documented: "Panics: If absolute_position > Cell start" (sic) -- the position must be at or beyond the start corner
+        old(self).lo().0 <= absolute_position.0, old(self).lo().1 <= absolute_position.1,
+        // ADDED (not documented): the grown rectangle must have spans representable in u32 (fewer than 2^32 rows / columns)
+        absolute_position.0 - old(self).lo().0 < u32::MAX, absolute_position.1 - old(self).lo().1 < u32::MAX,
+    ensures
+        //# C05.set_wf
+        old(self).nonempty() ==> final(self).wf(),
+        //# C05.set_bounds
+        old(self).nonempty() ==> final(self).nonempty() && final(self).lo() == old(self).lo()
+            && final(self).hi().0 == (if absolute_position.0 > old(self).hi().0 { absolute_position.0 } else { old(self).hi().0 })
+            && final(self).hi().1 == (if absolute_position.1 > old(self).hi().1 { absolute_position.1 } else { old(self).hi().1 }),
+        //# C05.set_written
+        old(self).nonempty() ==> final(self).at(absolute_position.0 as int, absolute_position.1 as int) == value,
+        //# C05.set_frame
+        old(self).nonempty() && lawful::<T>() ==> forall|i: int, j: int| final(self).has(i, j) && !(i == absolute_position.0 && j == absolute_position.1)
+            ==> final(self).at(i, j) == (if old(self).has(i, j) { old(self).at(i, j) } else { dflt::<T>() }),
+        //# C05.set_on_empty
+        !old(self).nonempty() ==> final(self).wf() && final(self).nonempty()
+            && final(self).lo() == absolute_position && final(self).hi() == absolute_position
+            && final(self).at(absolute_position.0 as int, absolute_position.1 as int) == value,
+//@@ end
 //@@ fn src/lib.rs Range::get_value props=C05 ret=r
 //@@ sig
     requires self.wf(),
@@ -139,6 +244,95 @@ proof fn lemma_idx(i: int, j: int, h: int, w: int)
         //# C05.get_value
         r == (if self.has(absolute_position.0 as int, absolute_position.1 as int) {
                 Some(&self.at(absolute_position.0 as int, absolute_position.1 as int)) } else { None }),
+//@@ end
+//@@ fn src/lib.rs Range::from_sparse props=C05,C06 ret=r
+//@@ sig
+    requires rows_sorted(cells@),
+    ensures
+        //# C05.sparse_wf
+        r.wf(),
+        //# C05.sparse_empty
+        r.nonempty() <==> cells@.len() > 0,
+        //# C05.sparse_bounds
+        cells@.len() > 0 ==> is_bbox(cells@, r.lo(), r.hi()),
+        //# C05.sparse_placed
+        forall|i: int, j: int| r.has(i, j) && lastw(cells@, cells@.len() as int, i, j) >= 0 ==>
+            r.at(i, j) == cells@[lastw(cells@, cells@.len() as int, i, j)].v(),
+        //# C05.sparse_default
+        lawful::<T>() ==> forall|i: int, j: int| r.has(i, j) && lastw(cells@, cells@.len() as int, i, j) < 0 ==> r.at(i, j) == dflt::<T>(),
+        //# C05.sparse_inside
+        forall|k: int| 0 <= k < cells@.len() ==> r.has((#[trigger] cells@[k]).p().0 as int, cells@[k].p().1 as int),
+//@@ before /let row_start/
+            let ghost cs = cells@;
+            let ghost n = cells@.len() as int;
+//@@ replace /for c in cells\.iter\(\)\.map\(\|c\| c\.pos\.1\) \{/ Verus cannot type a closure that is generic in T for Iterator::map (has_type of the closure value is missing, so vstd's map_postcondition never fires); `for c in xs.iter().map(|c| c.pos.1) {` is unfolded to `for __cell in xs.iter() { let c = __cell.pos.1;` (definition of Iterator::map + for)
+            for __cell in it: cells.iter()
+                invariant
+                    cs == cells@, n == cs.len(), n > 0,
+                    it.seq().len() == n, 0 <= it.index@ <= n,
+                    forall|i: int| 0 <= i < n ==> *(#[trigger] it.seq()[i]) == cs[i],
+                    forall|i: int| 0 <= i < it.index@ ==> col_start <= (#[trigger] cs[i]).pos.1 <= col_end,
+                    it.index@ == 0 ==> col_start == u32::MAX && col_end == 0,
+                    it.index@ > 0 ==> exists|i: int| 0 <= i < it.index@ && (#[trigger] cs[i]).pos.1 == col_start,
+                    it.index@ > 0 ==> exists|i: int| 0 <= i < it.index@ && (#[trigger] cs[i]).pos.1 == col_end,
+            { let c = __cell.pos.1;
+                proof { assert(__cell.pos.1 == cs[it.index@ as int].pos.1); }
+//@@ before /let cols = /
+            proof {
+                assert(cs[0].pos.0 <= cs[n - 1].pos.0);
+            }
+//@@ before /let len = /
+            proof {
+                assert(rows * cols <= 0xffff_ffff * 0xffff_ffff) by (nonlinear_arith) requires 0 <= rows <= 0xffff_ffff, 0 <= cols <= 0xffff_ffff;
+                assert(cols * rows == rows * cols) by (nonlinear_arith);
+                assert(rows * cols >= 1) by (nonlinear_arith) requires rows >= 1, cols >= 1;
+            }
+//@@ after /v\.shrink_to_fit\(\);/
+            proof {
+                assert(lawful::<T>() ==> forall|q: int| 0 <= q < len ==> v@[q] == dflt::<T>());
+                assert forall|i: int, j: int| row_start <= i <= row_end && col_start <= j <= col_end implies
+                    0 <= #[trigger] ((i - row_start) * cols + (j - col_start)) < len by {
+                    lemma_idx(i - row_start, j - col_start, rows as int, cols as int);
+                }
+            }
+//@@ loop 1 it2
+                invariant
+                    cs == cells@, n == cs.len(), n > 0, rows_sorted(cs),
+                    row_start == cs[0].pos.0, row_end == cs[n - 1].pos.0,
+                    forall|i: int| 0 <= i < n ==> col_start <= (#[trigger] cs[i]).pos.1 <= col_end,
+                    cols == col_end - col_start + 1, rows == row_end - row_start + 1,
+                    len == rows * cols, v@.len() == len,
+                    it2.seq().len() == n, 0 <= it2.index@ <= n,
+                    forall|i: int| 0 <= i < n ==> #[trigger] it2.seq()[i] == cs[i],
+                    forall|i: int, j: int| row_start <= i <= row_end && col_start <= j <= col_end ==> {
+                        let q = #[trigger] ((i - row_start) * cols + (j - col_start));
+                        let lw = lastw(cs, it2.index@ as int, i, j);
+                        (lw >= 0 ==> v@[q] == cs[lw].val) && (lw < 0 && lawful::<T>() ==> v@[q] == dflt::<T>())
+                    },
+//@@ before /let idx = /
+                let ghost k = it2.index@ as int;
+                let ghost v0 = v@;
+                proof {
+                    assert(c == cs[k]);
+                    assert(cs[0].pos.0 <= cs[k].pos.0 <= cs[n - 1].pos.0);
+                    lemma_idx(row as int, col as int, rows as int, cols as int);
+                }
+//@@ after /\*v = c\.val;\s*\}/
+                proof {
+                    assert(v@ == v0.update(idx as int, cs[k].val));
+                    assert forall|i: int, j: int| row_start <= i <= row_end && col_start <= j <= col_end implies ({
+                        let q = #[trigger] ((i - row_start) * cols + (j - col_start));
+                        let lw = lastw(cs, k + 1, i, j);
+                        (lw >= 0 ==> v@[q] == cs[lw].val) && (lw < 0 && lawful::<T>() ==> v@[q] == dflt::<T>())
+                    }) by {
+                        let q = (i - row_start) * cols + (j - col_start);
+                        lemma_idx(i - row_start, j - col_start, rows as int, cols as int);
+                        if cell_at(cs[k], i, j) {
+                        } else {
+                            if q == idx as int { lemma_idx_inj(i - row_start, j - col_start, row as int, col as int, cols as int); }
+                        }
+                    }
+                }
 //@@ end
 //@@ endimpl
 
